@@ -44,3 +44,7 @@ void fld_ok(struct WithBuf *w, int i) { sprintf(w->name, "%c%c", i, i); }
 unsigned div_bad(unsigned a, unsigned b) { if (b == 0) return 0; if (a > 100) b /= 4; return a / b; }
 unsigned div_ok(unsigned a, unsigned b) { if (a > 100) b /= 4; if (b == 0) return 0; return a / b; }
 unsigned div_ok2(unsigned a, unsigned b) { unsigned f = 1 + b / 58; return (a + f - 1) / f; }
+/* <ctype.h> table lookups (C08 R7c): a widened byte is a valid index, arithmetic on it is not */
+#include <ctype.h>
+int ct_ok(const unsigned char *p) { return islower((int) *p) != 0; }
+int ct_bad(const char *p) { return islower(*p * 2) != 0; }
